@@ -1,0 +1,49 @@
+//go:build verif
+
+// Contracts for the deductive verifier in /verif (comment-only file; it
+// contributes no code to any build). Syntax: see /verif/DESIGN.md.
+//
+// Property C19, demultiplexingBlobAccess.FindMissing. Every digest of the
+// request is handed, patched with the patcher of the backend its instance name
+// routes to, to the partition of exactly that backend; every backend that got
+// a partition is asked about that partition and nothing else; every answer is
+// restored with the patcher of the partition it came from before it is
+// reported; an instance name that routes nowhere and a backend that fails end
+// the operation with that error.
+package blobstore
+
+// dfmIN(m, g): the partitions remembered per instance name are those of the
+// backend the name routes to; dfmBN(m, g): the partitions remembered per
+// backend name hold that backend and its patcher.
+//@ func (*demultiplexingBlobAccess).FindMissing
+//@   requires ba.getBackend != nil
+//@   callrequires (SetBuilder).Add [each-digest-goes-patched-to-the-partition-of-its-backend] !born(allMissing) ==>
+//@         (partition != nil && arg0.digests == partition.digests.digests
+//@             && partition.backend == gB(ba.getBackend, dgInst(blobDigest.value)) && partition.patcher == gP(ba.getBackend, dgInst(blobDigest.value))
+//@             && gE(ba.getBackend, dgInst(blobDigest.value)) == nil
+//@             && arg1.value == patchD(partition.patcher, blobDigest.value))
+//@   callrequires (SetBuilder).Add [answers-restored-with-the-partitions-own-patcher] born(allMissing) ==>
+//@         (arg0.digests == allMissing.digests && arg1.value == unpatchD(partition.patcher, blobDigest.value))
+//@   callrequires FindMissing [each-backend-asked-about-its-own-partition] partition != nil && arg0 == partition.backend
+//@         && base(arg2.digests) == sbSet(partition.digests.digests, sbAdds(partition.digests.digests))
+//@         && has(perBackendPartitions, backendName) && partition == mapget(perBackendPartitions, backendName)
+//@   ensures [unknown-name-refused] result1 == nil ==>
+//@         (forall j :: 0 <= j && j < len(digests.digests) ==> gE(ba.getBackend, dgInst(digests.digests[j].value)) == nil)
+//@   loop 0 invariant -1 <= rangeindex0 && unchanged(ba.getBackend)
+//@   loop 0 invariant forall j :: 0 <= j && j <= rangeindex0 && j < len(digests.digests) ==> has(perInstanceNamePartitions, dgInst(digests.digests[j].value))
+//@   loop 0 invariant [per-name-partitions-are-those-of-the-names-backend] forall x str :: has(perInstanceNamePartitions, x) ==>
+//@         (mapget(perInstanceNamePartitions, x) != nil && allocated(mapget(perInstanceNamePartitions, x)) && gE(ba.getBackend, x) == nil
+//@             && mapget(perInstanceNamePartitions, x).backend == gB(ba.getBackend, x) && mapget(perInstanceNamePartitions, x).patcher == gP(ba.getBackend, x))
+//@   loop 0 invariant [per-backend-partitions-hold-that-backend] forall s str :: has(perBackendPartitions, s) ==>
+//@         (mapget(perBackendPartitions, s) != nil && allocated(mapget(perBackendPartitions, s))
+//@             && mapget(perBackendPartitions, s).backend == nB(ba.getBackend, s) && mapget(perBackendPartitions, s).patcher == nP(ba.getBackend, s))
+//@   loop 0 invariant [a-names-partition-is-the-one-registered-for-its-backend] forall x str :: has(perInstanceNamePartitions, x) ==>
+//@         (has(perBackendPartitions, gN(ba.getBackend, x)) && mapget(perBackendPartitions, gN(ba.getBackend, x)) == mapget(perInstanceNamePartitions, x))
+//@   ensures [a-backends-failure-ends-the-operation] result1 == nil ==>
+//@         (forall s str :: has(perBackendPartitions, s) ==> fmErr(mapget(perBackendPartitions, s).backend) == nil)
+//@   loop 1 invariant unchanged(ba.getBackend)
+//@   loop 1 invariant forall s str :: has(perBackendPartitions, s) ==> mapget(perBackendPartitions, s) != nil
+//@   loop 1 invariant [every-backend-asked-so-far-answered] forall s str :: visited(perBackendPartitions, s) ==> fmErr(mapget(perBackendPartitions, s).backend) == nil
+//@   loop 2 invariant -1 <= rangeindex1 && unchanged(ba.getBackend)
+//@   loop 2 invariant forall s str :: has(perBackendPartitions, s) ==> mapget(perBackendPartitions, s) != nil
+//@   loop 2 invariant forall s str :: visited(perBackendPartitions, s) ==> fmErr(mapget(perBackendPartitions, s).backend) == nil
